@@ -4,6 +4,11 @@ import json, sys
 BASE = json.load(open('/root/.vp/BASELINE.json'))
 ALL = ["C%02d" % i for i in range(1, 21)]
 CHECKS = {
+ "C19": dict(cat="exploration", engine="e2e",
+   technique="exhaustive decision table and command histories on the real binary built from the tree, judged by in-process verification of independently decoded proofs",
+   text="setup / gen-test-params / prove / verify / convert-to-raw / export-solidity of the built binary composed through files and pipes at (2,2) (thorough +(1,3)): prove over (--mode flag x keys x params) incl. bogus/absent mode, other mode's, missing and truncated keys, garbage/empty/perturbed parameters; verify over the same (mode x keys) product and (hash x proof) incl. +1, +r, decimal, non-number, absent hash and 8 single-digit tamperings, {}, empty, garbage proofs; histories through converted keys, repeated proofs, verify without proof, other system's proof. Oracle: exit 0 <=> the independently decoded proof verifies in-process for hash mod r under the given keys; prove's stdout is exactly one JSON value + newline.",
+   note="stderr content is free; gen-test-params is deterministic, so 'many independent proofs' are repeated prove runs (proof randomness), short roots are covered by C08's generator sweep.", ref="DESIGN.md C19"),
+
  "C09": dict(cat="model_checking", engine="schedmc+seqmc",
    technique="explicit-state search over request histories on the real server.Run (instrumented build, model network), every response judged by an independent document classifier and proof verifier",
    text="Both modes at (2,2) with real Groth16: single requests (all methods, every strict prefix of a valid document, all 1-byte bodies, all 2-byte bodies over 16 characters, 23 replacements x 6 fields, shape changes, over-long inputs, +1/+r perturbations) delivered in chunks to one server each, and all request histories of length <=2 (3 thorough) over an 8-letter alphabet on a fresh server each (state = tally of response classes); oracle = 405 / 400 malformed_body / 400 proving_error / 200 as documented, every 200 body decoded by an independent decoder and verified against the request's input hash; a panic escaping the handler or a missing response is a violation.",
@@ -122,6 +127,7 @@ def main():
             {"name": "groth16-real", "path": "harness/checks", "serves_properties": ["C07", "C10", "C11", "C15"], "kind_free_text": "bounded-exhaustive menus and operation chains on real Groth16 setups, proofs and key files"},
             {"name": "maporder", "path": "harness/maporder", "serves_properties": ["C12", "C17"], "kind_free_text": "go build -overlay of runtime/map.go making the random start of every map iteration an enumerable input; child processes per seed"},
             {"name": "schedmc", "path": "harness/verifrt", "serves_properties": ["C14", "C13", "C09", "C20"], "kind_free_text": "AST instrumenter + cooperative scheduler + stateless DFS explorer (preemption bounding, state-key pruning) + model of net/http.Server, run on the repository's own server code via go build -overlay"},
+            {"name": "e2e", "path": "harness/checks/cli.go", "serves_properties": ["C19", "C08", "C11", "C12", "C15", "C17"], "kind_free_text": "drivers for the real binary built from the working tree (files, pipes, exit status)"},
             {"name": "enginemc", "path": "harness/gad", "serves_properties": ["C01", "C02", "C03", "C04", "C05", "C06"], "kind_free_text": "bounded-exhaustive evaluation of repo gadgets / full Define in gnark's test engine over small whole fields and BN254 alphabets"},
         ],
         "checks": checks,
